@@ -710,10 +710,13 @@ class BaseProject(object, metaclass=ABCMeta):
         self.workflow.remove_absence_time_list(self.absence_time_list)
         self.organization.remove_absence_time_list(self.absence_time_list)
 
+        removed_step_num = 0
         for step_time in sorted(self.absence_time_list, reverse=True):
             if step_time < len(self.cost_list):
                 self.cost_list.pop(step_time)
-        self.time = self.time - len(self.absence_time_list)
+                removed_step_num += 1
+        # only the steps which were really removed (absence steps beyond the end are ignored)
+        self.time = self.time - removed_step_num
         self.absence_time_list = []
 
     def insert_absence_time_list(self, absence_time_list):
@@ -734,10 +737,14 @@ class BaseProject(object, metaclass=ABCMeta):
         self.workflow.insert_absence_time_list(new_absence_time_list)
         self.organization.insert_absence_time_list(new_absence_time_list)
 
+        inserted_step_num = 0
         for step_time in sorted(new_absence_time_list):
-            self.cost_list.insert(step_time, 0.0)
+            # steps beyond the end are ignored (as in the logs of tasks, components, workers and facilities)
+            if step_time < len(self.cost_list):
+                self.cost_list.insert(step_time, 0.0)
+                inserted_step_num += 1
 
-        self.time = self.time + len(new_absence_time_list)
+        self.time = self.time + inserted_step_num
         self.absence_time_list.extend(new_absence_time_list)
 
     def set_last_datetime(
